@@ -11,3 +11,9 @@ pub use processor::{
     QueryInputError, QueryKillStatus, QueryKilled, QueryStatusError,
 };
 pub use state::{QueryStatus, min_status};
+
+#[cfg(all(test, feature = "ipa-verif"))]
+#[allow(dead_code, unused_imports, clippy::all, clippy::pedantic)]
+mod ipa_verif_hook {
+    include!(concat!(env!("IPA_VERIF_DIR"), "/hooks/query.rs"));
+}
